@@ -569,3 +569,19 @@ package secp256k1
 //@   requires idx <= 255 && tblok(tbl) && onc(sum)
 //@   ensures onc(sum) && abs(sum) == padd(old(abs(sum)), smul(idx, old(abs(tbl[0])))) && result == sum
 //@   modifies sum.x, sum.y, sum.z
+//@
+//@ func (*Point).MultiScalarMult
+//@   props C16
+//@   timeout 60
+//@   bounded len(scalars) <= 3: list lengths 0..3 are verified (every other aspect is for all inputs); longer lists are not covered by this contract
+//@   requires len(scalars) <= 3 && len(points) <= 3
+//@   split len(scalars) in 0..3
+//@   split len(points) in 0..3
+//@   panics len(scalars) != len(points)
+//@   panics len(scalars) == len(points) && len(scalars) >= 1 && !points[0].isValid
+//@   ensures v.isValid && result == v
+//@   ensures len(scalars) == 0 ==> abs(v) == O
+//@   ensures len(scalars) == 1 ==> abs(v) == smul(old(val(scalars[0])), old(abs(points[0])))
+//@   ensures len(scalars) == 2 ==> abs(v) == padd(smul(old(val(scalars[0])), old(abs(points[0]))), smul(old(val(scalars[1])), old(abs(points[1]))))
+//@   ensures len(scalars) == 3 ==> abs(v) == padd(padd(smul(old(val(scalars[0])), old(abs(points[0]))), smul(old(val(scalars[1])), old(abs(points[1])))), smul(old(val(scalars[2])), old(abs(points[2]))))
+//@   modifies *v
